@@ -30,6 +30,7 @@ def run(R):
     active_own(R, ro)
     stack_effect(R, ro)
     reset_rules(R, ro)
+    batch_residue(R, ro)
     getters(R, ro)
     R.require_min("C08.ACTIVE-PAIR", 3)
     R.require_min("C08.RESET", 4)
@@ -119,7 +120,12 @@ def reset_rules(R, ro):
     resets = [n for n, c in kit.call_sites(drain, lambda c: q.call_name(c) == "self.reset")]
     for g, lab in guards:
         starts = [e.dst for e in dcfg.out_edges(g.id, N) if e.label == lab]
-        p = dcfg.find_path(starts, [dcfg.raise_exit, dcfg.exit], N, cut_nodes=resets)
+        # (a fault of some other statement of the branch is not "the RuntimeError that stops runaway recursion"; the exits that
+        # matter are the RuntimeError raise itself and leaving the branch normally)
+        rt_raises = [n for n in dcfg.nodes if n.kind == "stmt" and isinstance(n.ast, ast.Raise) and n.ast.exc is not None and
+                     (q.call_name(n.ast.exc) if isinstance(n.ast.exc, ast.Call) else q.dotted(n.ast.exc)) == "RuntimeError"]
+        p = dcfg.find_path(starts, rt_raises + [dcfg.exit] + [n for n in dcfg.nodes if n.kind == "loop"], N, cut_nodes=resets,
+                           keep_edge=lambda e: not (e.implicit and dcfg.nodes[e.dst].kind == "except"))
         R.check(p is None and resets, "C08.RESET", drain.qualname + ":guard-resets", R.site(drain, g.ast),
                 "when the stack limit is exceeded the scheduler is reset before RuntimeError is raised",
                 "the stack-limit branch raises without resetting the scheduler: batches scheduled by the runaway computation stay pending "
@@ -131,6 +137,36 @@ def reset_rules(R, ro):
         R.check(p2 is None and raises, "C08.RESET", drain.qualname + ":guard-raises", R.site(drain, g.ast),
                 "exceeding the stack limit raises RuntimeError", "exceeding the stack limit no longer raises RuntimeError on every path",
                 dcfg.fmt_path(p2) if p2 else None)
+
+
+def batch_residue(R, ro, rule="C08.UNWIND.BATCHES"):
+    """When an exception leaves wait_for and no computation is left on the stack, the pending batches (scheduled by the tasks
+    that are being abandoned) are dropped: otherwise the next computation on the thread flushes them - it does not behave as
+    on a fresh scheduler."""
+    wf = ro.wait_for()
+    cfg = cfg_of(wf)
+    sf, bf = "self." + ro.stack_field(), "self." + ro.batches_field()
+    drops = [n for n in cfg.nodes if n.kind == "stmt" and (
+        (isinstance(n.ast, ast.Assign) and any(q.src(t) == bf for t in n.ast.targets) and
+         ((isinstance(n.ast.value, ast.Call) and q.call_name(n.ast.value) == "set" and not n.ast.value.args) or (isinstance(n.ast.value, ast.Set) and not n.ast.value.elts)))
+        or any(q.call_name(c) in (bf + ".clear", "self.reset") for c in kit.node_calls(n)))]
+
+    def enclosing_left(e):
+        nd = cfg.nodes[e.src]
+        if nd.kind != "test":
+            return False
+        k, s, pos = q.atom_test(nd.ast)
+        if k == "truth" and s == sf:
+            return e.label == ("T" if pos else "F")          # the stack is not empty: an enclosing computation goes on
+        if k in ("eq", "lt") and "len(%s)" % sf in s and "0" in s:
+            # len(stack) == 0 -> F edge is "not empty";  0 < len(stack) -> T edge
+            return e.label == (("F" if pos else "T") if k == "eq" else ("T" if pos else "F"))
+        return False
+    p = cfg.find_path([cfg.entry], [cfg.raise_exit], X, cut_nodes=drops, keep_edge=lambda e: not enclosing_left(e))
+    R.check(p is None and drops, rule, wf.qualname, R.site(wf),
+            "an exception leaves wait_for only after the pending batches were dropped, unless an enclosing computation is still on the stack",
+            "an exception can leave wait_for with the batches of the abandoned computation still pending in %s: the next computation on this thread "
+            "flushes them (it does not behave as on a fresh scheduler)" % bf, cfg.fmt_path(p) if p else None)
 
 
 def getters(R, ro):
